@@ -2379,6 +2379,7 @@ _g_ir_node_build_typelib (GIrNode         *node,
 	    *(gint32*)&data[blob->offset] = (gint32) parse_int_value (constant->value);
 	    break;
 	  case GI_TYPE_TAG_UINT32:
+	  case GI_TYPE_TAG_UNICHAR:
 	    blob->size = 4;
 	    *(guint32*)&data[blob->offset] = (guint32) parse_uint_value (constant->value);
 	    break;
